@@ -173,6 +173,12 @@ def rule_b(ctx):
                    e.data['target'][2] == '_is_server_alive' and e.data['value'].is_const() and
                    e.data['value'].const is False]
         told = [e for e in p.events if e.kind == 'call' and e.data.get('name') == 'on_keepalive_timeout']
+        # ... the handler installed now (self._handler read when the timeout fires), not one captured earlier
+        stale = [e for e in told if e.data.get('recv') is None or
+                 strip_epoch(e.data['recv'].term) != ('attr', ('self',), '_handler')]
+        if stale:
+            ok, detail = False, ('the timeout is reported to a call-back captured when the watchdog started, not to '
+                                 'self._handler as it is when the timeout fires: a handler installed later is never told')
         if timed_out:
             n_timeout += 1
             if not cleared or not told:
